@@ -159,7 +159,13 @@ impl Ty {
             Type::Multi(m) => {
                 // keep exactly the members the crate holds (no normalisation beyond ordering), so a
                 // malformed union (nested union, any / ! inside, one member) stays visible
-                let members: BTreeSet<Ty> = m.iter().map(Ty::from_real).collect();
+                let mut members: BTreeSet<Ty> = m.iter().map(Ty::from_real).collect();
+                if members.len() != m.iter().count() {
+                    // the crate's set holds two structurally equal members: keep that visible
+                    let mut marker = BTreeMap::new();
+                    marker.insert("<duplicate-union-member>".to_string(), Ty::Never);
+                    members.insert(Ty::Struct(marker));
+                }
                 Ty::Union(members)
             }
         }
